@@ -42,6 +42,11 @@ beh("f14_classes_auth", ["C14"], cfg(), [E("k1")] + [M(c, "auth") for c in ["emp
                                                                               "nontls", "dropAfterHello", "dropMidHello", "silentClose"]] + [D("k1")])
 beh("f14_classes_fetch", ["C14"], cfg(sw=True), [E("k1")] + [M(c, "fetch") for c in ["empty", "short1", "short2", "nob64", "b64rand", "b64trunc", "oversize", "mixed", "dup", "badindex", "hugeEntry",
                                                                                        "dropAfterHello", "dropMidHello"]] + [D("k1"), M("empty", "pref"), M("short1", "pref"), M("b64rand", "pref"), D("k1")])
+# peers that keep a handshake open for 6.5 s while an honest node dials (open known finding KF-C14-2: Accept handshakes inline)
+beh("kf_c14_stall", ["C14"], cfg(), [E("k1"), D("k1"), M("stallSilent"), D("k1"), M("stallPartial"), D("k1"), M("stallAfterHello", "fetch"), D("k1"), M("stallAfterHello", "auth"), D("k1")])
+# adversarial library clients are remote input as well
+beh("f14_clients", ["C14", "C02"], cfg(), [E("k1"), E("k2"), C("k1", pref="garbage"), D("k1"), C("k1", pref="next"), C("k1", pref="garbage", stt="ok"), C("k1", ck="k2", pref="garbage"), R("k2"), C("k2", pref="garbage"),
+                                           C("k1", chain="self", pref="garbage"), C("k1", nsig="kx", pref="garbage"), D("k1"), RE, C("k1", pref="cur"), C("k1", pref="garbage"), D("k1"), E("k3"), D("k3")])
 # open known finding KF-C14-1: application AEAD registration wrapper + short wrapped ciphertext
 beh("kf_c14_wrappedshort", ["C14"], cfg(regw=True), [E("k1"), M("wrappedShort", "fetch"), D("k1"), M("b64rand", "fetch"), D("k1")])
 for unix in (False, True):
